@@ -198,6 +198,42 @@ fn build_cases(tier: Tier) -> Vec<Case> {
             cases.push(Case { bytes, filter: Filter::Link(1), dest: Dest::File, stdin: false, label: format!("header byte {byte}={val:#x}") });
         }
     }
+    // stdout is line buffered by the runtime: contents with newlines at chosen places, sizes around the buffer
+    // (1 KiB), the pipe page (4 KiB / 8 KiB) and the pipe capacity (64 KiB)
+    for (ci, content) in ["zeros", "all-newlines", "newline-first", "newline-every-1500", "crlf-pairs"].iter().enumerate() {
+        for &(count, size) in &[(1usize, 16usize), (2, 2000), (3, 10_000), (9, 10_000)] {
+            let pk: Vec<Packet> = (0..count)
+                .map(|i| {
+                    let mut p = gen::recognisable_framed((i % 2) as u8, gen::fee_of_link((i % 2) as u8), size, 6500 + (ci * 100 + i) as u64);
+                    // every header byte that the CLI does not need is zero as well: no stray newline in the header
+                    let mut r = Rdh::base();
+                    r.link_id = (i % 2) as u8;
+                    r.fee_id = gen::fee_of_link((i % 2) as u8);
+                    r.packet_counter = 0;
+                    r.orbit = 0;
+                    r.trigger_type = 1;
+                    r.cru_id = 0;
+                    let body: Vec<u8> = (0..size)
+                        .map(|j| match *content {
+                            "zeros" => 0,
+                            "all-newlines" => 0x0A,
+                            "newline-first" => if j == 0 { 0x0A } else { 0 },
+                            "newline-every-1500" => if j % 1500 == 7 { 0x0A } else { 0x20 },
+                            _ => if j % 2 == 0 { 0x0D } else { 0x0A },
+                        })
+                        .collect();
+                    p = Packet::framed(r, body);
+                    p
+                })
+                .collect();
+            let bytes = stream::to_bytes(&pk);
+            for f in [Filter::Link(0), Filter::Link(1)] {
+                for (dest, stdin) in [(Dest::ImplicitStdout, false), (Dest::ExplicitStdout, true), (Dest::File, false)] {
+                    cases.push(Case { bytes: bytes.clone(), filter: f, dest, stdin, label: format!("content {content} x{count} size {size}") });
+                }
+            }
+        }
+    }
     // large payloads: totals beyond 2^16
     let pk: Vec<Packet> = (0..12).map(|i| gen::recognisable_framed((i % 2) as u8, gen::fee_of_link((i % 2) as u8), [10000, 9984, 8000][i % 3], 6000 + i as u64)).collect();
     let bytes = stream::to_bytes(&pk);
